@@ -5,7 +5,8 @@ import json
 import sys
 import traceback
 
-sys.path.insert(0, "/repo")
+import os
+sys.path.insert(0, os.environ.get("FVSYM_REPO") or "/repo")
 sys.dont_write_bytecode = True
 
 
